@@ -830,6 +830,9 @@ func (f *fragment) unprotectedSetRow(row *Row, rowID uint64) (changed bool, err 
 	// invalidate rowCache for this row.
 	f.rowCache.Add(rowID, nil)
 
+	// Invalidate block checksum.
+	delete(f.checksums, int(rowID/HashBlockSize))
+
 	// Snapshot storage.
 	f.enqueueSnapshot()
 	f.stats.Count("setRow", 1, 1.0)
@@ -877,6 +880,9 @@ func (f *fragment) unprotectedClearRow(rowID uint64) (changed bool, err error) {
 	// Clear the row in cache.
 	f.cache.Add(rowID, 0)
 	f.rowCache.Add(rowID, nil)
+
+	// Invalidate block checksum.
+	delete(f.checksums, int(rowID/HashBlockSize))
 
 	// Snapshot storage.
 	f.enqueueSnapshot()
@@ -2235,6 +2241,11 @@ func (f *fragment) importValue(columnIDs []uint64, values []int64, bitDepth uint
 		_ = f.openStorage(true)
 		return err
 	}
+	// Invalidate the checksums of the blocks holding the BSI rows.
+	for i := uint64(0); i < uint64(bitDepth)+bsiOffsetBit; i++ {
+		delete(f.checksums, int(i/HashBlockSize))
+	}
+
 	// We don't actually care, except we want our stats to be accurate.
 	f.incrementOpN(totalChanges)
 
@@ -2273,6 +2284,8 @@ func (f *fragment) importRoaring(ctx context.Context, data []byte, clear bool) e
 			continue
 		}
 		f.rowCache.Add(rowID, nil)
+		// Invalidate block checksum.
+		delete(f.checksums, int(rowID/HashBlockSize))
 		if updateCache {
 			anyChanged = true
 			f.cache.BulkAdd(rowID, f.cache.Get(rowID)+uint64(changes))
